@@ -19,6 +19,8 @@ pub trait Backend {
     fn broker(&self, _ctx: u64, _what: &'static str, _arg: u64) {}
     /// the publication the broker with context `ctx` is about to fan out
     fn broker_msg(&self, _ctx: u64, _msg: &dyn std::any::Any) {}
+    /// the message type (topic) the broker with context `ctx` serves, told before every step it reports
+    fn broker_type(&self, _ctx: u64, _type_name: &'static str) {}
 }
 
 thread_local! { static BACKEND: RefCell<Option<Rc<dyn Backend>>> = const { RefCell::new(None) }; }
@@ -55,6 +57,11 @@ pub(crate) fn dequeued<A>(ctx: crate::context::ContextID, payload: Option<&crate
 pub(crate) fn broker_msg(ctx: crate::context::ContextID, msg: &dyn std::any::Any) {
     if let Some(b) = backend() {
         b.broker_msg(ctx.raw(), msg);
+    }
+}
+pub(crate) fn broker_type(ctx: crate::context::ContextID, type_name: &'static str) {
+    if let Some(b) = backend() {
+        b.broker_type(ctx.raw(), type_name);
     }
 }
 pub(crate) fn broker(ctx: crate::context::ContextID, what: &'static str, arg: u64) {
